@@ -745,6 +745,14 @@ func multiFirstWins(c *an.Ctx, f *an.Fn) bool {
 			})
 		},
 		Call: func(x *an.Explorer, call *ast.CallExpr, st *an.State) {
+			// the loader that said "exists" is handed to something else that decides (accept(loader)): its outcome counts
+			if hit := st.Get("hit"); strings.HasPrefix(hit, "exists:") && !an.IsCallTo(info, call, "(jet.Loader).Exists", "(jet.Loader).Open") {
+				for _, a := range call.Args {
+					if k, ok := x.Key(a); ok && hit == "exists:"+k {
+						st.Set("hit", "")
+					}
+				}
+			}
 			if an.IsCallTo(info, call, "(jet.Loader).Exists", "(jet.Loader).Open") {
 				reached = true
 				hit := st.Get("hit")
